@@ -333,6 +333,8 @@ def run_case(H, ex, case):
         return prop_case(H, ex, case)
     if what == 'migr':
         return migr_case(H, ex, case)
+    if what == 'prop2':
+        return prop2_case(H, ex, case)
     if what == 'dump':
         # ChunkBuilder::dump(CompressionType::None) into a sink with room for k bytes
         n, k = case['len'], case['room']
@@ -695,7 +697,7 @@ def confirm(H, ex, case, label):
     from .. import common as C, gen
     if ex.solver.check() != z3.sat:
         return False, None, 'path condition unsatisfiable at report time'
-    if (label.startswith('C04') and case['what'] in ('prop', 'tree')) or case['what'] == 'migr':
+    if (label.startswith('C04') and case['what'] in ('prop', 'tree', 'prop2')) or case['what'] == 'migr':
         return confirm_decoded(H, ex, case, label)
     if case['what'] == 'cchunk':
         # native: highly compressible real chunks (1 MiB of one byte, Zstandard and LZ4) through the real reader
@@ -1093,11 +1095,14 @@ def prop_case(H, ex, case):
         values += B(u32le(len(objs))) + referent_array(objs) + B(u32le(0))
     else:
         values = spec_prop_values(kind, vals, opts)
-    body = B(u32le(0)) + spec_string(b'P') + B([PROP_TYPES[kind]]) + values
+    # the class id is arbitrary (docs: "an arbitrarily-chosen ID"), the same in the INST and PROP chunks
+    cid = z3.BitVec('cid', 32)
+    ex.assume(z3.And(cid >= 0, cid < (1 << 30)))
+    body = sym_u32le(cid) + spec_string(b'P') + B([PROP_TYPES[kind]]) + values
     props = [chunk(b'PROP', body)]
     if case.get('extra'):
         # docs/binary.md PROP: a chunk that ends after the name, or whose type id is not one the reader knows, is skipped
-        xbody = B(u32le(0)) + spec_string(b'Q')
+        xbody = sym_u32le(cid) + spec_string(b'Q')
         if case['extra'] == 'unknown_type':
             t = sym_int('xtype', 'u8')
             for tid in sorted(set(H.prog.enums['Type'].values())):
@@ -1105,7 +1110,7 @@ def prop_case(H, ex, case):
             xbody += [t] + [sym_int('xjunk%d' % i, 'u8') for i in range(case.get('junk', 3))]
         x = chunk(b'PROP', xbody)
         props = [x] + props if ex.nondet(2, 'skipped PROP chunk before / after') == 0 else props + [x]
-    data = file_header(1, n) + inst_chunk(z3.BitVecVal(0, 32), b'A', refs) + [b for c_ in props for b in c_] + prnt_chunk(refs, [z3.BitVecVal(0xffffffff, 32)] * n) + END
+    data = file_header(1, n) + inst_chunk(cid, case.get('cls', 'A').encode() if isinstance(case.get('cls'), str) else b'A', refs) + [b for c_ in props for b in c_] + prnt_chunk(refs, [z3.BitVecVal(0xffffffff, 32)] * n) + END
     ex.input_bytes = data
     ex.alloc_limit = len(data) + 1
     de = H.deserializer(H.database(case.get('classes')))
@@ -1212,4 +1217,50 @@ def migr_case(H, ex, case):
         if ex.sat(z3.Not(attrcheck.bits_eq(got, exp))):
             ex.assume(z3.Not(attrcheck.bits_eq(got, exp)))
             raise Violation('C15.migr[%s]: ScreenInsets of instance %d is not %s' % ('explicit_wins' if explicit else 'value', i, 'the explicit value' if explicit else 'the migrated legacy value'))
+    return 'ok'
+
+
+def prop2_case(H, ex, case):
+    """two classes with arbitrary distinct class ids, INST chunks and PROP chunks each in either order: every PROP column lands on
+    the instances of the class whose id it names"""
+    from . import attrcheck
+    from .domcheck import DomHarness, Atoms
+    ca, cb = z3.BitVec('cidA', 32), z3.BitVec('cidB', 32)
+    ex.assume(z3.And(ca >= 0, ca < (1 << 30), cb >= 0, cb < (1 << 30), ca != cb))
+    va, vb = z3.BitVec('va', 32), z3.BitVec('vb', 32)
+    r0, r1 = z3.BitVecVal(0, 32), z3.BitVecVal(1, 32)
+    insts = [inst_chunk(ca, b'A', [r0]), inst_chunk(cb, b'B', [r1])]
+    props = [chunk(b'PROP', sym_u32le(ca) + spec_string(b'P') + B([PROP_TYPES['Int32']]) + spec_prop_values('Int32', [{'v': va}])),
+             chunk(b'PROP', sym_u32le(cb) + spec_string(b'P') + B([PROP_TYPES['Int32']]) + spec_prop_values('Int32', [{'v': vb}]))]
+    if ex.nondet(2, 'INST chunk order') == 1:
+        insts.reverse()
+    if ex.nondet(2, 'PROP chunk order') == 1:
+        props.reverse()
+    data = file_header(2, 2) + [b for c_ in insts + props for b in c_] + prnt_chunk([r0, r1], [z3.BitVecVal(0xffffffff, 32)] * 2) + END
+    ex.input_bytes = data
+    ex.alloc_limit = len(data) + 1
+    de = H.deserializer(H.database(None))
+    try:
+        res = ex.force(ex.call_fn(H.F_DESER, [Ptr(Cell(de)), Ptr(Cell(iomodels.CursorV(data)))]))
+    except PanicPath as p:
+        raise Violation('C04.panic[prop2]: deserialize panics on a two-class file: %s at %s' % (p.msg, p.site))
+    ex.c04_expect = dict(name=b'P', n=2, values=[build_value(H, expected_variant(H, 'Int32', {'v': va}, {}, 0)), build_value(H, expected_variant(H, 'Int32', {'v': vb}, {}, 1))])
+    if res.variant != 'Ok':
+        raise Violation('C04.reject[prop2_class_ids]: a two-class file with arbitrary class ids is rejected')
+    DH = DomHarness(H.prog)
+    A = Atoms(ex)
+    d = DH.snapshot(ex, A, res.f[0])
+    kids = d.nodes[d.root]['children']
+    if len(kids) != 2:
+        raise Violation('C04.tree: %d instances decoded, 2 described' % len(kids))
+    for i, (k, cls) in enumerate(zip(kids, (b'A', b'B'))):
+        node = d.nodes[k]
+        if node['cls'].concrete_bytes() != cls:
+            raise Violation('C04.prop[prop2_class]: instance %d decodes with class %r' % (i, node['cls'].concrete_bytes()))
+        pr = {pk.concrete_bytes(): pv for pk, pv in node['props']}
+        if set(pr) != {b'P'}:
+            raise Violation('C04.prop[prop2_names]: instance %d has properties %s' % (i, sorted(pr)))
+        if ex.sat(z3.Not(attrcheck.bits_eq(pr[b'P'], ex.c04_expect['values'][i]))):
+            ex.assume(z3.Not(attrcheck.bits_eq(pr[b'P'], ex.c04_expect['values'][i])))
+            raise Violation('C04.prop[prop2_value]: the value of class %s lands on another class (class ids / chunk order)' % cls.decode())
     return 'ok'
